@@ -16,6 +16,7 @@ import (
 	"time"
 
 	"github.com/cloudwego/eino/compose"
+	"github.com/cloudwego/eino/schema"
 	"github.com/cloudwego/eino/verifharness/vh"
 )
 
@@ -33,11 +34,12 @@ type Node struct {
 }
 
 type Branch struct {
-	From  string     `json:"from"`
-	Ends  []string   `json:"ends"`
-	Multi bool       `json:"multi,omitempty"`
-	Table [][]string `json:"table"`
-	Fail  *int       `json:"fail,omitempty"`
+	From   string     `json:"from"`
+	Ends   []string   `json:"ends"`
+	Multi  bool       `json:"multi,omitempty"`
+	Stream bool       `json:"stream,omitempty"` // prefix-reading stream condition: decides on the first chunk's key set
+	Table  [][]string `json:"table"`
+	Fail   *int       `json:"fail,omitempty"`
 }
 
 type Graph struct {
@@ -85,6 +87,22 @@ func Pick(table [][]string, v M) []string {
 	return table[int(Fnv32(Render(v))%uint32(len(table)))]
 }
 
+func PickKeys(table [][]string, v M) []string {
+	if len(table) == 0 {
+		return nil
+	}
+	keys := make([]string, 0, len(v))
+	for k := range v {
+		keys = append(keys, k)
+	}
+	sort.Strings(keys)
+	s := ""
+	for _, k := range keys {
+		s += k + ","
+	}
+	return table[int(Fnv32(s)%uint32(len(table)))]
+}
+
 // ---------- errors of user code ----------
 
 type UserErr struct{ ID int }
@@ -129,6 +147,9 @@ func record(ctx context.Context, path string, in M) {
 // BodyHook lets a property customise node bodies (delays, barriers…); may be nil.
 type BuildOpts struct {
 	Wrap func(path string, f func(ctx context.Context, in M) (M, error)) func(ctx context.Context, in M) (M, error)
+	// Produce turns the chunks a streaming form emits into a stream (default: an array
+	// reader). C19 uses it to emit through a Pipe from a goroutine with blocking sends.
+	Produce func(path string, chunks []M) *schema.StreamReader[M]
 }
 
 func joinPath(prefix, key string) string {
@@ -176,7 +197,11 @@ func Build(g *Graph, prefix string, bo *BuildOpts) (*compose.Graph[M, M], error)
 			if bo != nil && bo.Wrap != nil {
 				f = bo.Wrap(path, f)
 			}
-			err = cg.AddLambdaNode(n.Key, nativeLambda(f, n.Native, n.Chunks))
+			var produce func(chunks []M) *schema.StreamReader[M]
+			if bo != nil && bo.Produce != nil {
+				produce = func(chunks []M) *schema.StreamReader[M] { return bo.Produce(path, chunks) }
+			}
+			err = cg.AddLambdaNode(n.Key, nativeLambda(f, n.Native, n.Chunks, produce))
 		}
 		if err != nil {
 			return nil, fmt.Errorf("add node %s: %w", n.Key, err)
@@ -194,7 +219,43 @@ func Build(g *Graph, prefix string, bo *BuildOpts) (*compose.Graph[M, M], error)
 			ends[e] = true
 		}
 		var br *compose.GraphBranch
-		if b.Multi {
+		if b.Stream {
+			first := func(in *schema.StreamReader[M]) ([]string, error) {
+				defer in.Close()
+				if b.Fail != nil {
+					return nil, &BranchErr{ID: *b.Fail}
+				}
+				c, err := in.Recv()
+				if err != nil {
+					return nil, &BranchErr{ID: 9998}
+				}
+				return PickKeys(b.Table, c), nil
+			}
+			if b.Multi {
+				br = compose.NewStreamGraphMultiBranch(func(ctx context.Context, in *schema.StreamReader[M]) (map[string]bool, error) {
+					row, err := first(in)
+					if err != nil {
+						return nil, err
+					}
+					out := map[string]bool{}
+					for _, t := range row {
+						out[t] = true
+					}
+					return out, nil
+				}, ends)
+			} else {
+				br = compose.NewStreamGraphBranch(func(ctx context.Context, in *schema.StreamReader[M]) (string, error) {
+					row, err := first(in)
+					if err != nil {
+						return "", err
+					}
+					if len(row) != 1 {
+						return "", fmt.Errorf("harness: single branch row must have one target")
+					}
+					return row[0], nil
+				}, ends)
+			}
+		} else if b.Multi {
 			br = compose.NewGraphMultiBranch(func(ctx context.Context, in M) (map[string]bool, error) {
 				if b.Fail != nil {
 					return nil, &BranchErr{ID: *b.Fail}
